@@ -52,6 +52,25 @@ def handle (op : String) (args : List String) : String :=
   | "dump", [t] => match (SExpr.parse t).bind Tree.ofSExpr with
     | some t => "ok\t" ++ (SExpr.str (dump t)).render
     | none => bad
+  | "asAst", [v] => match (SExpr.parse v).bind PyVal.ofSExpr with
+    | some v => okE (asAst v)
+    | none => bad
+  | "checkAst", [e] => match parseExpr e with
+    | some e => (match checkAst e with
+      | .ok _ => "ok\tunit"
+      | .error err => "err\t" ++ err.render)
+    | none => bad
+  | "terminal", kind :: src :: vals =>
+    match parseExpr src, vals.mapM (fun v => (SExpr.parse v).bind PyVal.ofSExpr) with
+    | some src, some vs =>
+      (match kind, vs with
+       | "MetaData", [md] => okE (mdCall src md)
+       | "AsPandasDF", [c] => okE (asPandas src c)
+       | "AsAwkwardArray", [c] => okE (asAwkward src c)
+       | "AsROOTTTree", [f, t, c] => okE (asRootTTree src f t c)
+       | "AsParquetFiles", [f, c] => okE (asParquet src f c)
+       | _, _ => bad)
+    | _, _ => bad
   | "ev", [ds, env, e] => match parseVal ds, parseEnv env, parseExpr e with
     | some ds, some env, some e => resStr (ev (driverWorld ds) (Env.ofList env.reverse) e)
     | _, _, _ => bad
